@@ -204,7 +204,7 @@ def gen_npath(rng, names: list[str]) -> str:
         return rng.choice(["new", "zz", "n.m", "a.b.c", '"q s"', "é"])
     if names and r < 0.8:
         return rng.choice(names) + "." + rng.choice(["c", "d"])
-    return rng.choice(["", "a..b", '"open', ".a", "a.", "@v", "@zz", "missing"])
+    return rng.choice(["", "a..b", '"open', ".a", "a.", "@v", "@zz", "missing", " a", "a ", "a\n"])
 
 
 def fixed_cases() -> list[Case]:
@@ -515,6 +515,25 @@ def observe_followups(ctx, followups: list, tmp: str, env: dict):
                      observed=fmt(got))
 
 
+def configuration_probe(ctx, tmp: str, env: dict):
+    """Informational (not part of the verdict): under a non-UTF-8 stdio encoding stdin is decoded with that encoding
+    while -f FILE is forced to UTF-8, so the two channels emit different bytes for non-ASCII input. The sandbox has only
+    C/POSIX/C.utf8 locales (all UTF-8 in CPython), so this is reachable through PYTHONIOENCODING only."""
+    env2 = dict(env, PYTHONIOENCODING="latin-1")
+    data = '{ a = "é"; }\n'.encode("utf-8")
+    path = os.path.join(tmp, "cfg.nix")
+    with open(path, "wb") as fh:
+        fh.write(data)
+    a = run_cli(["set", "b", "1"], data, tmp, env2)
+    b = run_cli(["set", "b", "1", "-f", path], None, tmp, env2)
+    ctx.count("subprocess_runs", 2)
+    ctx.extra["configuration_probe"] = {
+        "setting": "PYTHONIOENCODING=latin-1", "input": data.decode(), "stdin": {"stdout_hex": a["out"].hex(), "exit": a["rc"]},
+        "file": {"stdout_hex": b["out"].hex(), "exit": b["rc"]}, "channels_agree": (a["out"], a["rc"]) == (b["out"], b["rc"]),
+        "note": "outside the modelled default environment (see assumptions); reported to the lead, not a verdict",
+    }
+
+
 def observe_argv(ctx, tmp: str, env: dict):
     for argv, label in ARGV_CASES:
         got = run_cli(argv, b"{ a = 1; }\n", tmp, env)
@@ -597,6 +616,8 @@ def check_cases(ctx, cases: list[Case], correspondence: bool):
     try:
         run_all(ctx, cases, tmp, env)
         argv_results = list(observe_argv(ctx, tmp, env))
+        if correspondence:
+            configuration_probe(ctx, tmp, env)
         if correspondence:
             correspond(ctx, cases, pr, argv_results)
         followups: list = []
